@@ -121,10 +121,38 @@ def merge_weights(ex, st, eff, blocks):
     return w, used
 
 
-def check_parallel_merging(chk, ex, found):
+def pm_oracle(chk, n):
+    """the real parallel_merging on n shared-memory HyperLogLog sketches vs merging them in-process"""
+    import multiprocessing as mp
+    import numpy as np
+
+    hl = chk.module("hyperloglog")
+    helpers = chk.module("helpers")
+    sk, want = [], hl.HyperLogLog(7, 5)
+    for i in range(n):
+        s_ = hl.HyperLogLog(7, 5, shared_memory=True)
+        keys = [b"s%d-%d" % (i, j) for j in range(40)]
+        s_.update(keys)
+        want.update(keys)
+        sk.append(s_)
+    lq = mp.get_context("spawn").Queue()
+    try:
+        res = helpers.parallel_merging(list(sk), lq)
+        got = np.array(res.registers).copy()
+    except Exception as e:
+        return {"key": "parallel_merging of %d HyperLogLog(7, 5) sketches" % n, "observed": "raised %s: %s" % (type(e).__name__, e), "expected": "the merged sketch", "how": "real helpers.parallel_merging (spawned merge workers)"}
+    finally:
+        res = None
+        del sk
+    if not np.array_equal(got, want.registers):
+        return {"key": "parallel_merging of %d HyperLogLog(7, 5) sketches with 40 distinct keys each" % n, "observed": "%d registers differ from the sketch of all keys" % int((got != want.registers).sum()), "expected": "registers of the sketch fed every key", "how": "real helpers.parallel_merging (spawned merge workers)"}
+    return None
+
+
+def check_parallel_merging(chk, ex, found, kinds=("hll", "cms", "hh")):
     fn = ex.func("helpers", "parallel_merging")
     ns = range(1, 7) if chk.tier == "quick" else range(1, 12)
-    for kind in ("hll", "cms", "hh"):
+    for kind in kinds:
         cls = FAMS[kind][0]
         for n in (ns if kind == "hll" else (1, 2, 3, 5)):
             st = X.State()
@@ -134,6 +162,13 @@ def check_parallel_merging(chk, ex, found):
             n0 = len(st.effects)
             outs = ex.call_function(fn, [list(refs), lq], {}, st)
             name = "parallel_merging[%s,n=%d]" % (kind, n)
+            cache_ = {}
+
+            def found(n=n, cache_=cache_):
+                if "r" not in cache_:
+                    cache_["r"] = pm_oracle(chk, n)
+                return cache_["r"]
+
             row(chk, name + ":returns-a-sketch", len(outs) == 1 and outs[0].kind == "return" and isinstance(outs[0].value, Ref), [o.kind for o in outs], found)
             for o in outs:
                 if o.kind != "return":
@@ -237,7 +272,7 @@ def check_parallel_add(chk, ex, found):
                 okw = okw and ex.concrete(a[0]) == i and a[2] is cb and len(a[1]) == len(combo)
                 for (kind_c, args_c, name_c), k in zip(a[1], [k for k in ("cms", "hh", "hll") if k in combo]):
                     own = o.state.objs[created[k][i]]["fields"]
-                    okw = okw and ex.concrete(kind_c) == k and args_c is own["args"] and z3.eq(name_c.t, o.state.objs[own["shm"].oid]["fields"]["name"].t)
+                    okw = okw and ex.concrete(kind_c) == k and args_c == own["args"] and z3.eq(name_c.t, o.state.objs[own["shm"].oid]["fields"]["name"].t)
             row(chk, name + ":worker-i-gets-its-own-sketches-by-name", okw, None, found)
             started = set(e[1] for e in eff if e[0] == "start")
             row(chk, name + ":all-processes-started", all(e[1] in started for e in procs), None, found)
@@ -325,6 +360,17 @@ def replay_generator(chk=None):
     if line.startswith("RESULT"):
         return None
     return {"key": "F3", "call": "parallel_add(<generator>, cb, n_workers=2, hll_args={'p': 7})", "observed": line, "expected": "items may be given as a list or as a generator", "how": "real run in a subprocess"}
+
+
+def merge_tree_part(chk):
+    """the library's own merge tree on HyperLogLog sketches (used by C02: 'the shape of the merge
+    tree' includes the tree that parallel_merging builds)"""
+    ex = _helpers.make_exec(chk, {("process-start",): start_hook})
+    try:
+        check_parallel_merging(chk, ex, None, kinds=("hll",))
+    except X.Unsupported as e:
+        chk.undecided.append(("helpers.parallel_merging", "unsupported construct in glue: %s" % e))
+    chk.assumptions.add("synchronous-process abstraction (see skv/props/_helpers.py); parallel_merging is checked for concrete worker counts (bounded in n, unbounded in contents)")
 
 
 def run(chk):
